@@ -13,21 +13,31 @@ rewrite of the source that commutes or re-associates operands stays provable, wh
 namespace DV.C11.GenTie
 open DV.C11
 
-/-- `generated = model` for `Nat`/`Int` formulas, up to commutativity / associativity -/
+/-- `generated = model` for `Nat`/`Int` formulas, up to commutativity / associativity, `x % n` spelled `x - x / n * n`
+    (round five) and values the translator merged from several paths into an `if` (round five) -/
 macro "tie_arith" : tactic =>
   `(tactic| first
     | rfl
     | omega
     | (simp only [Nat.add_comm, Nat.mul_comm, Nat.add_left_comm, Nat.mul_left_comm, Nat.add_assoc, Nat.mul_assoc, Nat.mod_mod]; done)
     | (simp only [Nat.add_comm, Nat.mul_comm, Nat.add_left_comm, Nat.mul_left_comm, Nat.add_assoc, Nat.mul_assoc, Nat.mod_mod]; omega)
+    | (simp only [Nat.mod_def, Nat.add_comm, Nat.mul_comm, Nat.add_left_comm, Nat.mul_left_comm, Nat.add_assoc, Nat.mul_assoc]; done)
+    | (simp only [Nat.mod_def, Nat.add_comm, Nat.mul_comm, Nat.add_left_comm, Nat.mul_left_comm, Nat.add_assoc, Nat.mul_assoc]; omega)
+    | (split <;> first | rfl | omega | grind)
     | grind)
 
-/-- `generated condition ↔ model condition` -/
+/-- `generated condition ↔ model condition` (also when the translator merged several paths into an `if`, round five) -/
 macro "tie_cond" : tactic =>
   `(tactic| first
     | (simp only [beq_iff_eq, bne_iff_ne, ne_eq, decide_eq_true_eq, gt_iff_lt, ge_iff_le, Bool.not_eq_true', decide_eq_false_iff_not, beq_eq_false_iff_ne, Bool.not_eq_eq_eq_not, Bool.not_true, Nat.not_lt, Nat.not_le]; done)
     | (simp only [beq_iff_eq, bne_iff_ne, ne_eq, decide_eq_true_eq, gt_iff_lt, ge_iff_le, Bool.not_eq_true', decide_eq_false_iff_not, beq_eq_false_iff_ne, Bool.not_eq_eq_eq_not, Bool.not_true, Nat.not_lt, Nat.not_le]; omega)
     | (simp only [beq_iff_eq, bne_iff_ne, ne_eq, decide_eq_true_eq, gt_iff_lt, ge_iff_le, Bool.not_eq_true', decide_eq_false_iff_not, beq_eq_false_iff_ne, Bool.not_eq_eq_eq_not, Bool.not_true, Nat.not_lt, Nat.not_le]; constructor <;> intro h <;> omega)
+    | (split <;> first
+        | (simp only [beq_iff_eq, bne_iff_ne, ne_eq, decide_eq_true_eq, gt_iff_lt, ge_iff_le, Bool.not_eq_true', decide_eq_false_iff_not, beq_eq_false_iff_ne, Bool.not_eq_eq_eq_not, Bool.not_true, Nat.not_lt, Nat.not_le]; done)
+        | (simp only [beq_iff_eq, bne_iff_ne, ne_eq, decide_eq_true_eq, gt_iff_lt, ge_iff_le, Bool.not_eq_true', decide_eq_false_iff_not, beq_eq_false_iff_ne, Bool.not_eq_eq_eq_not, Bool.not_true, Nat.not_lt, Nat.not_le]; omega)
+        | (simp_all; done)
+        | (simp_all; omega)
+        | grind)
     | grind)
 
 /-! ### ArrayList -/
